@@ -35,7 +35,7 @@ def forbidden_scan():
     return bad
 
 
-def proof_gate(prop):
+def proof_gate(prop, tier="quick"):
     """(obligations, discharged, problems, theorem names)"""
     problems = []
     ok, out = common.build_coq(["Properties/%s.vo" % prop, "Pins/Pins_%s.vo" % prop])
@@ -56,6 +56,11 @@ def proof_gate(prop):
     bad = forbidden_scan()
     if bad:
         problems.append("forbidden declarations in the development:\n" + "\n".join(bad[:20]))
+    if tier == "thorough" and not problems:
+        # the independent checker re-checks the compiled property file and everything it depends on
+        rc, out = common.sh("timeout 1500 coqchk -o -silent -Q . BBF BBF.Properties.%s" % prop, cwd=COQ, timeout=1600)
+        if rc != 0 or "Axioms: <none>" not in out:
+            problems.append("coqchk does not accept the property file or reports axioms:\n" + out[-2000:])
     return len(theorems), min(closed, len(theorems)) if not problems else 0, problems, theorems
 
 
@@ -174,7 +179,7 @@ def check(prop, tier, seed):
     okd, outd = common.build_driver() if ok else (False, out)
     okh, outh = common.build_harness()
 
-    obligations, discharged, gate_problems, theorems = proof_gate(prop)
+    obligations, discharged, gate_problems, theorems = proof_gate(prop, tier)
     gen = props.GENERATORS[prop](tier, rng)
     cases = gen["cases"]
 
